@@ -225,6 +225,19 @@ def repo_fingerprint():
     return h.hexdigest()[:16]
 
 
+def _big_stack():
+    """the extracted model recurses on list length (65k-entry tables): lift the stack limit for the child"""
+    import resource
+    try:
+        resource.setrlimit(resource.RLIMIT_STACK, (resource.RLIM_INFINITY, resource.RLIM_INFINITY))
+    except Exception:
+        try:
+            soft, hard = resource.getrlimit(resource.RLIMIT_STACK)
+            resource.setrlimit(resource.RLIMIT_STACK, (hard, hard))
+        except Exception:
+            pass
+
+
 def _run_shard(binary, path, timeout):
     """Run one binary over a shard file; on a stall mark the in-flight case HANG and resume."""
     lines_in = [l for l in open(path).read().split("\n") if l and not l.startswith("#")]
@@ -236,7 +249,7 @@ def _run_shard(binary, path, timeout):
             f.write("\n".join(lines_in[start:]) + "\n")
         try:
             p = subprocess.run([binary, tmp], stdout=subprocess.PIPE, stderr=subprocess.DEVNULL,
-                               timeout=timeout)
+                               timeout=timeout, preexec_fn=_big_stack)
             out = p.stdout.decode("utf-8", "replace").split("\n")
             if out and out[-1] == "":
                 out.pop()
@@ -296,7 +309,7 @@ def run_both(cases, tag, timeout=None, per_shard_timeout=120, with_model=True):
 def run_one(binary, case, timeout=30):
     try:
         p = subprocess.run([binary], input=(case + "\n").encode(), stdout=subprocess.PIPE,
-                           stderr=subprocess.DEVNULL, timeout=timeout)
+                           stderr=subprocess.DEVNULL, timeout=timeout, preexec_fn=_big_stack)
         out = p.stdout.decode("utf-8", "replace").strip("\n")
         return out if out else "CRASH rc=%d" % p.returncode
     except subprocess.TimeoutExpired:
